@@ -150,11 +150,17 @@ type Shape struct {
 	API     *serix.API
 	uid     int
 	HasTime bool
+	// settings objects live as long as the API, like a user's: one *serix.ArrayRules per harness *ARules (several types
+	// may deliberately share one), the root option is built once. A library that mutates a caller's settings object in
+	// place then shows up as a result that depends on earlier calls.
+	arObj   map[*ARules]*serix.ArrayRules
+	rootOpt *serix.TypeSettings
 	HasZero bool // contains a sequence whose element can be empty on the wire, or an optional zero-size target
 	Feat    map[string]bool
 }
 
 type Gen struct {
+	sharable []*ARules // rules objects of collection types that later collection types may share (same pointer)
 	r  *vx.Rng
 	sh *Shape
 	// knobs
@@ -359,7 +365,7 @@ func (g *Gen) genStructKey(depth int, keyable bool) *Node {
 				f.Tag.L = ip(l)
 				tag += ",lenPrefix=" + []string{"uint8", "uint16", "uint32", "uint64"}[l]
 			}
-			if needL && r.Chance(1, 3) {
+			if needL && r.Chance(1, 2) {
 				ru := &ARules{}
 				if r.Bool() {
 					ru.Min = uint64(r.Intn(3))
@@ -512,6 +518,11 @@ func (g *Gen) assignRegistry(n *Node, pos TS, seen map[*Node]bool) {
 		} else if ts.L == nil && r.Chance(1, 4) {
 			ts.L = ip(g.pickL())
 		}
+		if ts.Rules == nil && len(g.sharable) > 0 && r.Chance(1, 5) {
+			// share ONE rules object with another collection type (e.g. common bounds for a map and a slice)
+			ts.Rules = vx.Pick(r, g.sharable)
+			g.feat("shared-rules")
+		}
 		if ts.Rules == nil && r.Chance(3, 5) {
 			ru := &ARules{}
 			if r.Chance(1, 3) {
@@ -555,6 +566,9 @@ func (g *Gen) assignRegistry(n *Node, pos TS, seen map[*Node]bool) {
 				}
 			}
 			ts.Rules = ru
+			if !ru.One8 && !ru.One32 && len(ru.Must) == 0 {
+				g.sharable = append(g.sharable, ru)
+			}
 			if ru.Lex {
 				g.feat("lex")
 			}
@@ -653,7 +667,10 @@ func (sh *Shape) effective(n *Node, pos TS, depth int) *Node {
 
 // ---------- registration on a fresh API ----------
 
-func toSerixTS(ts TS) serix.TypeSettings {
+func toSerixTS(ts TS) serix.TypeSettings { return (*Shape)(nil).toSerix(ts) }
+
+// toSerix converts harness settings; with a Shape, equal *ARules pointers yield the same *serix.ArrayRules object.
+func (sh *Shape) toSerix(ts TS) serix.TypeSettings {
 	s := serix.TypeSettings{}
 	if ts.L != nil {
 		s = s.WithLengthPrefixType([]serix.LengthPrefixType{serix.LengthPrefixTypeAsByte, serix.LengthPrefixTypeAsUint16,
@@ -669,8 +686,16 @@ func toSerixTS(ts TS) serix.TypeSettings {
 	if ts.LexOrd != nil {
 		s = s.WithLexicalOrdering(*ts.LexOrd)
 	}
-	if ts.Rules != nil {
+	if ts.Rules != nil && sh != nil && sh.arObj[ts.Rules] != nil {
+		s = s.WithArrayRules(sh.arObj[ts.Rules])
+	} else if ts.Rules != nil {
 		ar := &serix.ArrayRules{Min: uint(ts.Rules.Min), Max: uint(ts.Rules.Max)}
+		if sh != nil {
+			if sh.arObj == nil {
+				sh.arObj = map[*ARules]*serix.ArrayRules{}
+			}
+			sh.arObj[ts.Rules] = ar
+		}
 		if ts.Rules.NoDup {
 			ar.ValidationMode |= serializer.ArrayValidationModeNoDuplicates
 		}
@@ -701,7 +726,7 @@ func (sh *Shape) register() error {
 		if ts.L == nil && ts.Code == nil && ts.LexOrd == nil && ts.Rules == nil {
 			continue
 		}
-		if err := api.RegisterTypeSettings(reflect.Zero(t).Interface(), toSerixTS(*ts)); err != nil {
+		if err := api.RegisterTypeSettings(reflect.Zero(t).Interface(), sh.toSerix(*ts)); err != nil {
 			return fmt.Errorf("register %s: %w", t, err)
 		}
 	}
